@@ -208,6 +208,7 @@ type loopEntry struct {
 	initVals    map[*ssa.Phi]Value
 	heapAtEntry Heap
 	phis        map[*ssa.Phi]Value
+	variant     *Term // written loop variant at the start of the (arbitrary) iteration
 }
 
 type State struct {
